@@ -21,7 +21,7 @@ type FuncResult struct {
 }
 
 func (v *Verifier) VerifyFunc(f *ssa.Function, fc *FuncContract) (res *FuncResult) {
-	c := &Ctx{V: v, Fn: f, FC: fc, Key: v.fnKey(f), declSet: map[string]bool{}, obls: map[string]*Obl{}, maxPaths: 6000, trusted: map[string]bool{}, inlined: map[string]bool{}, usedContracts: map[string]bool{}, callCovered: map[string]bool{}}
+	c := &Ctx{V: v, Fn: f, FC: fc, Key: v.fnKey(f), declSet: map[string]bool{}, obls: map[string]*Obl{}, maxPaths: 6000, trusted: map[string]bool{}, inlined: map[string]bool{}, usedContracts: map[string]bool{}, callCovered: map[string]bool{}, blockCovers: map[*ssa.BasicBlock][]*Query{}}
 	res = &FuncResult{Key: c.Key, Ctx: c}
 	v.prepareAxioms(c)
 	defer func() {
